@@ -408,12 +408,16 @@ def note_array_to_score(
                 break
         if all([x in dtypes for x in ts_case]):
             divs = int(
-                (note_array[idx]["duration_div"] / note_array[idx]["duration_beat"])
-                / (4 / note_array[idx]["ts_beat_type"])
+                round(
+                    (note_array[idx]["duration_div"] / note_array[idx]["duration_beat"])
+                    / (4 / note_array[idx]["ts_beat_type"])
+                )
             )
         else:
             divs = int(
-                note_array[idx]["duration_div"] / note_array[idx]["duration_beat"]
+                round(
+                    note_array[idx]["duration_div"] / note_array[idx]["duration_beat"]
+                )
             )
 
     # Test Note array for negative durations
